@@ -30,33 +30,12 @@ META = {"C18": {
 
 LAYOUT_MIN = {0: 2, 1: 3}          # layout id -> Layout::data_channel_pdu_memory_size(0)
 LAYOUT_NAME = {0: "default_pdu_layout", 1: "nrf_details::encrypted_pdu_layout"}
-HARNESS_SIZES = {6, 7, 8, 9, 10, 11, 12, 13, 16, 29, 30, 32, 50, 61, 100, 255, 256, 257, 300, 512, 600}
 JOBS = 4
 
 
-def tla_set(xs):
-    return "{" + ",".join(str(x) for x in sorted(set(xs))) + "}"
-
-
-def consts(size, layout, maxlive, sizes=None, lens=None, extra=""):
-    m = LAYOUT_MIN[layout]
-    s = "CONSTANTS Size = %d  MinSz = %d  MaxLive = %d" % (size, m, maxlive)
-    if sizes is not None:
-        s += "  Sizes = %s  Lens = %s" % (tla_set(sizes), tla_set(lens))
-    return s + " " + extra + "\n"
-
-
-def small_alphabet(size, layout):
-    m = LAYOUT_MIN[layout]
-    return list(range(m + 1, size + 2)), list(range(m + 1, size + 1))
-
-
-def real_alphabet(size, layout):
-    """PDU memory sizes that occur in practice: tiny, 27 byte payload, 100, the documented maximum 251 (+ overhead)"""
-    m = LAYOUT_MIN[layout]
-    lens = [x for x in (m + 1, m + 2, m + 7, m + 27, m + 60, m + 100, m + 200, m + 249, m + 251) if x <= min(size, 254)]
-    sizes = sorted(set(lens + [x for x in (m + 27, m + 251, size - 1, size, size // 2, size // 2 + 1) if m < x <= size]))
-    return sizes, lens
+def cfg_codes(cfgs):
+    """configurations (Size, layout) -> the integer encoding 10 * Size + MinSz used by the specifications"""
+    return "{" + ",".join(str(10 * size + LAYOUT_MIN[layout]) for size, layout in cfgs) + "}"
 
 
 # ------------------------------------------------------------------------------------------
@@ -66,37 +45,38 @@ def op_line(op):
     return " ".join(str(x) for x in op)
 
 
-def tree_script(size, layout, behaviours):
-    """depth first walk through the prefix tree of the behaviours: every operation is followed by its subtree and an undo"""
-    root = {}
+def tree_scripts(behaviours):
+    """behaviours (each starting with ["reset", Size, layout]) -> {(Size, layout): (script lines, number of operations)}:
+    a depth first walk through the prefix tree of the behaviours of one configuration; every operation is followed
+    by its subtree and an undo"""
+    key = lambda kv: [str(x) for x in kv[0]]
+    roots = {}
     for b in behaviours:
-        node = root
-        for op in b:
+        node = roots.setdefault((b[0][1], b[0][2]), {})
+        for op in b[1:]:
             node = node.setdefault(tuple(op), {})
-    lines = ["reset %d %d" % (size, layout)]
-    n_ops = 0
-    stack = [(root, iter(sorted(root.items(), key=lambda kv: [str(x) for x in kv[0]])))]
-    while stack:
-        node, it = stack[-1]
-        try:
-            op, child = next(it)
-        except StopIteration:
-            stack.pop()
-            if stack:
-                lines.append("undo")
-            continue
-        lines.append(op_line(op) + " u")
-        n_ops += 1
-        stack.append((child, iter(sorted(child.items(), key=lambda kv: [str(x) for x in kv[0]]))))
-    return lines, n_ops
+    res = {}
+    for (size, layout), root in sorted(roots.items()):
+        lines = ["reset %d %d" % (size, layout)]
+        n_ops = 0
+        stack = [iter(sorted(root.items(), key=key))]
+        while stack:
+            try:
+                op, child = next(stack[-1])
+            except StopIteration:
+                stack.pop()
+                if stack:
+                    lines.append("undo")
+                continue
+            lines.append(op_line(op) + " u")
+            n_ops += 1
+            stack.append(iter(sorted(child.items(), key=key)))
+        res[(size, layout)] = (lines, n_ops)
+    return res
 
 
-def linear_script(size, layout, behaviours):
-    lines = []
-    for b in behaviours:
-        lines.append("reset %d %d" % (size, layout))
-        lines += [op_line(op) for op in b]
-    return lines
+def linear_script(behaviours):
+    return [op_line(op) for b in behaviours for op in b]
 
 
 # ------------------------------------------------------------------------------------------
@@ -169,21 +149,15 @@ def script_of_events(evs):
 
 
 # ------------------------------------------------------------------------------------------
-def trace_cfg(c, name, size, layout):
-    return vlib.write_cfg(c, name, consts(size, layout, 9) +
-                          "SPECIFICATION TSpec\nINVARIANTS InStorage NoOverlap IntactInv\nCHECK_DEADLOCK FALSE\n")
-
-
 def run_and_validate(c, exe, jobs, counts):
-    """jobs: list of dict(tag, size, layout, lines). Runs the harness and validates every trace (in parallel)."""
+    """jobs: list of dict(tag, lines, n_paths). Runs the harness and validates every trace (in parallel)."""
     def one(j):
         sp = vlib.write_lines(os.path.join(c.build_dir, "s_%s.txt" % j["tag"]), j["lines"])
         tp = os.path.join(c.build_dir, "t_%s.ndjson" % j["tag"])
         rc, out = vlib.run_harness(exe, [sp, tp])
         if rc != 0:
             raise vlib.ToolFailure("harness failed rc=%d: %s" % (rc, out[-2000:]))
-        cfg = trace_cfg(c, "trace_%s.cfg" % j["tag"], j["size"], j["layout"])
-        v = vlib.validate_trace("PduRing", "PduRingTrace.tla", cfg, tp, heap="3g")
+        v = vlib.validate_trace("PduRing", "PduRingTrace.tla", "Trace.cfg", tp, heap="3g")
         return j, tp, v
     with ThreadPoolExecutor(JOBS) as ex:
         results = list(ex.map(one, jobs))
@@ -191,19 +165,36 @@ def run_and_validate(c, exe, jobs, counts):
         evs = vlib.read_ndjson(tp)
         for ev in evs:
             counts[ev["e"]] = counts.get(ev["e"], 0) + 1
-        n_exec = sum(1 for ev in evs if ev["e"] == "Reset")
-        c.add_traces(j.get("n_paths", n_exec), v.events)
-        if evs and evs[-1]["e"] == "Crash" and len(evs) not in v.mismatch_lines:
-            v.mismatch_lines.append(len(evs))
-        for ln in v.mismatch_lines:
-            path = path_to(evs, ln - 1)
-            ev = dict(path[-1])
-            ev["_Size"] = j["size"]
-            sig = "%s:%s" % (signature(ev, path[:-1]), "nrf" if j["layout"] else "default")
-            c.finding(sig, "pdu_ring_buffer<%d, read_buffer, %s>: call %s after %d calls is not a step of the ring model"
-                      % (j["size"], LAYOUT_NAME[j["layout"]], {k: x for k, x in path[-1].items() if k != "b"}, len(path) - 1),
-                      {"size": j["size"], "layout": j["layout"], "script": script_of_events(path)})
+        c.add_traces(j["n_paths"], v.events)
+        if evs and evs[-1]["e"] == "Crash":
+            # the harness process died: the remaining executions of this script were not run
+            if len(evs) not in v.mismatch_lines:
+                v.mismatch_lines.append(len(evs))
+            c.note("harness crashed in %s; the rest of that script was not executed" % j["tag"])
+        report(c, evs, v.mismatch_lines)
     return results
+
+
+def report(c, evs, mismatch_lines):
+    for ln in mismatch_lines:
+        path = path_to(evs, ln - 1)
+        size, layout = path[0]["size"], path[0]["layout"]
+        ev = dict(path[-1])
+        ev["_Size"] = size
+        sig = "%s:%s" % (signature(ev, path[:-1]), "nrf" if layout else "default")
+        c.finding(sig, "pdu_ring_buffer<%d, read_buffer, %s>: call %s after %d calls is not a step of the ring model"
+                  % (size, LAYOUT_NAME[layout], {k: x for k, x in path[-1].items() if k != "b"}, len(path) - 1),
+                  {"script": script_of_events(path)})
+
+
+def split_jobs(tag, scripts, n):
+    """distribute per-configuration scripts over n trace files of similar length"""
+    bins = [{"tag": "%s%d" % (tag, i), "lines": [], "n_paths": 0} for i in range(n)]
+    for key, (lines, n_ops) in sorted(scripts.items(), key=lambda kv: -len(kv[1][0])):
+        b = min(bins, key=lambda x: len(x["lines"]))
+        b["lines"] += lines
+        b["n_paths"] += n_ops
+    return [b for b in bins if b["lines"]]
 
 
 def run(c):
@@ -234,61 +225,42 @@ def run(c):
     small = [(s, l) for s in ((6, 7, 8, 9, 10) if c.quick else (6, 7, 8, 9, 10, 11, 12)) for l in (0, 1)]
     maxlive = 3 if c.quick else 4
     counts = {}
-
-    def gen(cfgkey):
-        size, layout = cfgkey
-        sizes, lens = small_alphabet(size, layout)
-        cfg = vlib.write_cfg(c, "gen_%d_%d.cfg" % cfgkey, consts(size, layout, maxlive, sizes, lens, "D = 60  EmitAll = TRUE") +
-                             "SPECIFICATION GSpec\nVIEW View\nCHECK_DEADLOCK FALSE\n")
-        r = vlib.tlc("PduRing", "PduRingGen.tla", cfg, workers=2, heap="3g")
-        if r.violated or r.error or not r.completed:
-            raise vlib.ToolFailure("generator failed for %s: %s %s\n%s" % (cfgkey, r.violated, r.error, r.out[-3000:]))
-        if r.depth >= 60:
-            raise vlib.ToolFailure("generator did not reach the closure of the state graph for %s" % (cfgkey,))
-        return cfgkey, r
-    with ThreadPoolExecutor(JOBS) as ex:
-        gens = list(ex.map(gen, small))
-    jobs = []
-    for cfgkey, r in gens:
-        c.add_model_run("PduRingGen", "Size=%d layout=%d MaxLive=%d" % (cfgkey[0], cfgkey[1], maxlive), r)
-        behs = vlib.behaviours(r)
-        lines, n_ops = tree_script(cfgkey[0], cfgkey[1], behs)
-        c.extra.setdefault("exhaustive_configs", []).append(
-            {"Size": cfgkey[0], "layout": LAYOUT_NAME[cfgkey[1]], "model_states": r.distinct, "model_transitions": r.generated - 1,
-             "operations_replayed": n_ops, "graph_depth": r.depth})
-        if cfgkey == small[-1]:
-            c.sample({"Size": cfgkey[0], "layout": LAYOUT_NAME[cfgkey[1]], "behaviour": max(behs, key=len)})
-        jobs.append({"tag": "ex_%d_%d" % cfgkey, "size": cfgkey[0], "layout": cfgkey[1], "lines": lines, "n_paths": n_ops})
-    run_and_validate(c, exe, jobs, counts)
+    cfg = vlib.write_cfg(c, "gen.cfg", "CONSTANTS MaxLive = %d  Configs = %s  Alphabet = \"full\"  D = 60  EmitAll = TRUE\n"
+                         "SPECIFICATION GSpec\nVIEW View\nCHECK_DEADLOCK FALSE\n" % (maxlive, cfg_codes(small)))
+    r = vlib.tlc("PduRing", "PduRingGen.tla", cfg, workers=JOBS, heap="6g")
+    if r.violated or r.error or not r.completed:
+        raise vlib.ToolFailure("generator failed: %s %s\n%s" % (r.violated, r.error, r.out[-3000:]))
+    if r.depth >= 60:
+        raise vlib.ToolFailure("generator did not reach the closure of the state graph")
+    c.add_model_run("PduRingGen", "Configs=%s MaxLive=%d (complete graph)" % (cfg_codes(small), maxlive), r)
+    behs = vlib.behaviours(r)
+    scripts = tree_scripts(behs)
+    if set(scripts) != set(small):
+        raise vlib.ToolFailure("generator did not cover all configurations: %s" % sorted(scripts))
+    c.extra["exhaustive"] = {"model_states": r.distinct, "model_transitions": r.generated, "graph_depth": r.depth, "max_live": maxlive,
+                             "operations_replayed": {"%d/%s" % (k[0], LAYOUT_NAME[k[1]]): v[1] for k, v in sorted(scripts.items())}}
+    c.sample({"what": "longest generated history (Size 10, default layout)",
+              "behaviour": max((b for b in behs if b[0][1] == 10 and b[0][2] == 0), key=len)})
+    run_and_validate(c, exe, split_jobs("ex", scripts, JOBS), counts)
     c.exhaustive = True
 
     # 3. realistic sizes: random deep histories from the same generator model
     real = [(29, 0), (30, 1), (50, 0), (61, 0), (61, 1), (100, 0), (100, 1), (255, 0), (256, 1), (300, 0), (300, 1), (600, 1)]
-    if c.quick:
-        real = [(29, 0), (50, 0), (61, 1), (100, 0), (256, 1), (300, 0), (600, 1)]
-    nsim, dsim = (40, 40) if c.quick else (300, 80)
-
-    def sim(cfgkey):
-        size, layout = cfgkey
-        sizes, lens = real_alphabet(size, layout)
-        cfg = vlib.write_cfg(c, "sim_%d_%d.cfg" % cfgkey, consts(size, layout, 6, sizes, lens, "D = %d  EmitAll = FALSE" % dsim) +
-                             "SPECIFICATION GSpec\nCHECK_DEADLOCK FALSE\n")
-        r = vlib.tlc("PduRing", "PduRingGen.tla", cfg, workers=2, heap="3g", simulate=(nsim + 1) // 2, depth=dsim + 1, seed=c.seed)
-        if r.violated or r.error:
-            raise vlib.ToolFailure("simulation failed for %s: %s %s\n%s" % (cfgkey, r.violated, r.error, r.out[-3000:]))
-        behs = vlib.behaviours(r)
-        if not behs:
-            raise vlib.ToolFailure("simulation produced nothing for %s\n%s" % (cfgkey, r.out[-2000:]))
-        return cfgkey, behs[:nsim]
-    with ThreadPoolExecutor(JOBS) as ex:
-        sims = list(ex.map(sim, real))
-    jobs = []
-    for cfgkey, behs in sims:
-        if cfgkey == real[-1]:
-            c.sample({"Size": cfgkey[0], "layout": LAYOUT_NAME[cfgkey[1]], "behaviour": behs[0]})
-        jobs.append({"tag": "sim_%d_%d" % cfgkey, "size": cfgkey[0], "layout": cfgkey[1],
-                     "lines": linear_script(cfgkey[0], cfgkey[1], behs)})
-    c.extra["simulated_configs"] = [{"Size": k[0], "layout": LAYOUT_NAME[k[1]], "behaviours": len(b), "depth": dsim} for k, b in sims]
+    nsim, dsim = (240, 40) if c.quick else (3000, 80)
+    cfg = vlib.write_cfg(c, "sim.cfg", "CONSTANTS MaxLive = 6  Configs = %s  Alphabet = \"real\"  D = %d  EmitAll = FALSE\n"
+                         "SPECIFICATION GSpec\nCHECK_DEADLOCK FALSE\n" % (cfg_codes(real), dsim))
+    r = vlib.tlc("PduRing", "PduRingGen.tla", cfg, workers=JOBS, heap="6g", simulate=(nsim + JOBS - 1) // JOBS, depth=dsim + 2, seed=c.seed)
+    if r.violated or r.error:
+        raise vlib.ToolFailure("simulation failed: %s %s\n%s" % (r.violated, r.error, r.out[-3000:]))
+    behs = vlib.behaviours(r)[:nsim]
+    if not behs:
+        raise vlib.ToolFailure("simulation produced nothing\n%s" % r.out[-2000:])
+    c.sample({"what": "random history at a realistic size", "behaviour": behs[0]})
+    by_cfg = {}
+    for b in behs:
+        by_cfg[(b[0][1], b[0][2])] = by_cfg.get((b[0][1], b[0][2]), 0) + 1
+    c.extra["simulated"] = {"depth": dsim, "behaviours": {"%d/%s" % (k[0], LAYOUT_NAME[k[1]]): n for k, n in sorted(by_cfg.items())}}
+    jobs = [{"tag": "sim%d" % i, "lines": linear_script(part), "n_paths": len(part)} for i, part in enumerate(vlib.chunks(behs, JOBS))]
     run_and_validate(c, exe, jobs, counts)
     c.extra["events_by_action"] = counts
     for need in ("Reset", "alloc", "push", "peek", "pop", "Undo"):
@@ -301,15 +273,12 @@ def replay(c, exe):
     sp = vlib.write_lines(os.path.join(c.build_dir, "replay.txt"), case["script"])
     tp = os.path.join(c.build_dir, "replay.ndjson")
     vlib.run_harness(exe, [sp, tp])
-    cfg = trace_cfg(c, "trace_r.cfg", case["size"], case["layout"])
-    v = vlib.validate_trace("PduRing", "PduRingTrace.tla", cfg, tp)
+    v = vlib.validate_trace("PduRing", "PduRingTrace.tla", "Trace.cfg", tp)
     evs = vlib.read_ndjson(tp)
     c.add_traces(1, v.events)
     c.sample(evs[-6:])
     if evs and evs[-1]["e"] == "Crash" and len(evs) not in v.mismatch_lines:
         v.mismatch_lines.append(len(evs))
-    for ln in v.mismatch_lines:
-        ev = dict(evs[ln - 1])
-        ev["_Size"] = case["size"]
-        sig = "%s:%s" % (signature(ev, evs[:ln - 1]), "nrf" if case["layout"] else "default")
-        c.finding(sig, "replayed case rejected at event %d: %s" % (ln, evs[ln - 1]), case)
+    report(c, evs, v.mismatch_lines)
+    if not v.mismatch_lines:
+        c.note("replayed case is accepted by the specification")
